@@ -17,6 +17,7 @@ CONSTANTS
   PolicyNames = {"kA", "b1", "b0"}
   MaxTicks = 2
   MaxPol = 1
+  MaxFaults = 0
   MaxRestart = 0
   WithW2 = FALSE
   Export = TRUE
